@@ -365,6 +365,14 @@ impl<'a> World<'a> {
                 let donor = RegisterOp::new(op_addr, node, &self.keys[self.pick_stranger(actor)]);
                 (with_signature_of(&target, &donor), false)
             }
+            Kind::ForgedTampered if idx % 2 == 1 && self.pool.iter().any(|p| p.facts.kind == "good" && p.facts.source_actor == source_actor) => {
+                // the donor is an op of this very run that replicas have (or will have) validated: the forged op keeps
+                // that op's source and signature and carries another entry
+                let donor = self.pool.iter().rev().find(|p| p.facts.kind == "good" && p.facts.source_actor == source_actor).map(|p| p.op.clone()).expect("donor");
+                let target = RegisterOp::new(op_addr, node, &self.keys[source_actor]);
+                self.rep.probe("forged_op_carries_the_signature_of_a_delivered_op");
+                (with_signature_of(&target, &donor), false)
+            }
             Kind::ForgedTampered => {
                 let target = RegisterOp::new(op_addr, node, &self.keys[source_actor]);
                 let mut decoy = bytes.clone();
